@@ -30,7 +30,8 @@ def fmt_case(etype, stable, sent, alg, ln, seqs, sents):
 
 def gen_seqs(rng, k, shape):
     """shape: 0 tiny alphabet (heavy duplicates), 1 all equal, 2 one dominant sequence, 3 wide keys,
-    4 many empty sequences, 5 staircase (disjoint ranges: sequences run out one after the other)"""
+    4 many empty sequences, 5 staircase (disjoint ranges: sequences run out one after the other), 6 all empty,
+    7 one very long sequence among empty / one-element ones"""
     seqs = []
     for i in range(k):
         if shape == 0:
@@ -43,10 +44,16 @@ def gen_seqs(rng, k, shape):
             n = rng.below(9); keys = [rng.below(40) for _ in range(n)]
         elif shape == 4:
             n = 0 if rng.chance(1, 2) else rng.range(1, 4); keys = [rng.below(4) for _ in range(n)]
-        else:
+        elif shape == 5:
             n = rng.range(1, 4); keys = [10 * ((i * 7) % max(k, 1)) + rng.below(3) for _ in range(n)]
+        elif shape == 6:
+            n = 0; keys = []                                   # all sequences empty
+        else:
+            n = rng.range(25, 45) if i == (k - 1) // 2 else rng.below(2); keys = [rng.below(9) for _ in range(n)]   # very unequal
         seqs.append(sorted(keys))
     return seqs
+
+SHAPES = [0, 0, 1, 2, 3, 3, 4, 5, 6, 7]
 
 def gen_sents(rng, seqs):
     mx = max([x for s in seqs for x in s] + [0])
@@ -61,6 +68,56 @@ def configs(rng, how_many):
     out = []
     for _ in range(how_many): out.append(allc[rng.below(len(allc))])
     return out
+
+
+# ---------------------------------------------------------------- API surface (audited against multiway_merge.hpp / merge_advance.hpp)
+# profile -> element types it is instantiated for (harness/C05/api_harness.cpp); profile 0 = harness/C05/mwm_harness.cpp
+PROFILES = {0: "ITB", 1: "ITMB", 2: "IB", 3: "T", 4: "IB", 5: "T", 6: "TB", 7: "I"}
+def part_of(profile, e):
+    if profile == 0: return 0
+    return {1: 1 if e in "IT" else 2, 2: 2 if e == "B" else 3, 3: 1, 4: 3, 5: 1, 6: 3, 7: 2}[profile]
+
+API_SURFACE = [
+ # public entry points
+ {"api": "tlx::multiway_merge / stable_multiway_merge / multiway_merge_sentinels / stable_multiway_merge_sentinels (seqs_begin, seqs_end, target, size, comp, mwma)", "called": True, "by": "P0,P1,P3,P4,P5: all four, every MWMA_* constant, every k"},
+ {"api": "the same four with mwma defaulted (MWMA_ALGORITHM_DEFAULT) / with comp and mwma defaulted (std::less)", "called": True, "by": "P2"},
+ {"api": "tlx::multiway_merge_base<Stable, Sentinels> called directly, all four <Stable,Sentinels> instances", "called": True, "by": "P1 (r odd), P4 (r odd), P6/P7 for k < 2"},
+ {"api": "MultiwayMergeAlgorithm constants MWMA_LOSER_TREE, _COMBINED, _SENTINEL, MWMA_BUBBLE with every k in 0..9,17 (incl. k = 0,1,2 where the constant is ignored; _SENTINEL without sentinels -> _COMBINED)", "called": True, "by": "all profiles"},
+ # detail routines callable directly
+ {"api": "multiway_merge_detail::multiway_merge_3_variant<guarded_iterator|unguarded_iterator>, multiway_merge_3_combined", "called": True, "by": "through the switch (all profiles) and directly (P6,P7)"},
+ {"api": "multiway_merge_detail::multiway_merge_4_variant<guarded_iterator|unguarded_iterator>, multiway_merge_4_combined", "called": True, "by": "through the switch and directly (P6,P7)"},
+ {"api": "multiway_merge_detail::multiway_merge_bubble<Stable>", "called": True, "by": "switch (k >= 5) and directly for k >= 2 (P6,P7)"},
+ {"api": "multiway_merge_detail::multiway_merge_loser_tree<LoserTree<Stable,T,Comp>>", "called": True, "by": "switch and directly for k >= 2 (P6,P7)"},
+ {"api": "multiway_merge_detail::multiway_merge_loser_tree_unguarded<...>", "called": True, "by": "via _combined and _sentinel (no direct call: its precondition is established only by those two)"},
+ {"api": "multiway_merge_detail::multiway_merge_loser_tree_combined<Stable>, multiway_merge_loser_tree_sentinel<Stable>", "called": True, "by": "switch and directly for k >= 2 (P6,P7)"},
+ {"api": "multiway_merge_detail::prepare_unguarded<Stable>", "called": True, "by": "via every *_combined routine"},
+ {"api": "multiway_merge_detail::prepare_unguarded_sentinel", "called": False, "by": "no sequential caller in tlx (helper of the parallel merge: writes sentinels and returns an overhang); outside the property's statement"},
+ {"api": "multiway_merge_detail::guarded_iterator / unguarded_iterator (operator<, operator<=, ++, *, iterator())", "called": True, "by": "via the 3-way / 4-way variants"},
+ {"api": "tlx::merge_advance / merge_advance_usual / merge_advance_movc", "called": True, "by": "merge_advance via k = 2 and the 3-way combined (all profiles); all three directly with two different iterator types (P6) / raw pointers (P7)"},
+ # template degrees of freedom
+ {"api": "sequence-of-pairs iterator: std::vector<pair>::iterator | pair* | std::deque<pair>::iterator (const ranges are not usable: .first is advanced in place)", "called": True, "by": "P0,P3-P6 | P1,P7 | P2"},
+ {"api": "element iterators: checking iterator class | raw pointer | std::vector<T>::iterator | std::deque<T>::iterator", "called": True, "by": "P0,P4,P5,P6 | P1,P7 | P2 | P3"},
+ {"api": "output iterator: T* | std::vector<T>::iterator | std::deque<T>::iterator | pointer to a different value type assignable from T | std::back_inserter (merge_advance* only: the tree merges need target + n)", "called": True, "by": "P0,P4-P7 | P1 | P2 | P3 | P6"},
+ {"api": "DiffType of merge_advance*: int | long | unsigned | size_t; size of the merges: the iterators' difference_type (long)", "called": True, "by": "P6,P7 | all"},
+ {"api": "comparator: std::less / key-only less | std::greater / key-only greater on descending inputs | stateful non-default-constructible counting comparator", "called": True, "by": "P0-P3,P6,P7 | P4 | P5"},
+ {"api": "element type: int (4 B) | 16 B record = 2*sizeof(size_t) (largest copy-based loser tree) | 24 B record (smallest pointer-based tree) | 40 B record", "called": True, "by": "I | T | M (P1) | B"},
+ # regimes
+ {"api": "regime: every sequence in its own exactly sized heap block (ASan redzones) | all sequences adjacent sub-ranges of ONE buffer (overruns read valid neighbours; caught by the checking iterators / wrong results)", "called": True, "by": "P0,P1,P6 | P4,P5,P7"},
+ {"api": "regime: k = 0,1,2 with every algorithm constant; len = 0; all sequences empty; one very long sequence among short/empty ones; len smaller than one sequence; empty first sequence", "called": True, "by": "generator shapes 0-7, every len 0..total for small inputs"},
+]
+
+def assign_variant(rng, c):
+    """append the API profile: ~45% the plain harness, otherwise a profile that is instantiated for the element type"""
+    t = c.split()
+    if t[-1].startswith("v="): return c
+    e = t[0]
+    if rng.below(100) < 45:
+        return c + " v=0.0"
+    cand = [p for p in PROFILES if p and e in PROFILES[p]]
+    p = cand[rng.below(len(cand))]
+    if p == 1 and e == "T" and rng.below(2) == 0:
+        t[0] = "M"; c = " ".join(t)
+    return c + " v=%d.%d" % (p, rng.below(48))
 
 TIE_WORDS = [[], [0], [1], [2], [0, 0], [0, 1], [0, 2], [1, 1], [1, 2], [2, 2]]
 
@@ -94,7 +151,7 @@ else:
     n_small = 9000 if ck.thorough() else 420
     for t in range(n_small):
         k = KS[t % len(KS)]
-        seqs = gen_seqs(rng, k, rng.below(6))
+        seqs = gen_seqs(rng, k, SHAPES[rng.below(len(SHAPES))])
         total = sum(len(s) for s in seqs)
         sents = gen_sents(rng, seqs)
         ncfg = 48 if (ck.thorough() and k <= 5 and t % 4 == 0) else (6 if ck.thorough() else 3)
@@ -105,7 +162,7 @@ else:
     n_med = 5000 if ck.thorough() else 260
     for t in range(n_med):
         k = KS[rng.below(len(KS))]
-        seqs = gen_seqs(rng, k, rng.below(6))
+        seqs = gen_seqs(rng, k, SHAPES[rng.below(len(SHAPES))])
         total = sum(len(s) for s in seqs)
         sents = gen_sents(rng, seqs)
         e = "ITB"[t % 3]
@@ -126,6 +183,9 @@ else:
         se = 1 if a == 2 else rng.below(2)
         for ln in range(1, total + 1):
             cases.append(fmt_case("TB"[t % 2], 1, se, a, ln, seqs, [3] * k))
+
+if not ck.replay:
+    cases = [assign_variant(rng, c) for c in cases]
 
 # ---------------------------------------------------------------- the property, decided on a result line of the implementation
 def parse_case(c):
@@ -202,7 +262,7 @@ def canon(c, line):
 
 # ---------------------------------------------------------------- run both sides
 found = False
-hist = {"k": {}, "alg": {}, "entry": {}, "etype": {}}
+hist = {"k": {}, "alg": {}, "entry": {}, "etype": {}, "api_profile": {}}
 distinct = set()
 samples = []
 soft = []
@@ -215,40 +275,58 @@ def run_cases(cases, tag):
     casefile = os.path.join(ck.scratch, "cases_%s.txt" % tag)
     with open(casefile, "w") as f:
         f.write("\n".join(cases) + "\n")
-    rc1, out1 = verif.sh([exe, casefile], timeout=1200 if ck.thorough() else 400)
-    rc2, out2 = verif.sh([drv, casefile], timeout=3000)
-    impl = out1.splitlines(); model = out2.splitlines()
+    rc2_holder = {}
+    def run_model():
+        rc2_holder["r"] = verif.sh([drv, casefile], timeout=3000)
+    import threading
+    tm = threading.Thread(target=run_model); tm.start()
+    # every case goes to the executable that implements its API profile
+    groups = {}
+    for idx, c in enumerate(cases):
+        t = c.split()
+        prof = int(t[-1][2:].split(".")[0]) if t[-1].startswith("v=") else 0
+        groups.setdefault(part_of(prof, t[0]), []).append(idx)
+    impl = ["<missing>"] * len(cases)
+    results = {}
+    def run_part(part, idxs):
+        f = os.path.join(ck.scratch, "cases_%s_p%d.txt" % (tag, part))
+        with open(f, "w") as fh:
+            fh.write("\n".join(cases[i] for i in idxs) + "\n")
+        results[part] = verif.sh([exes[part], f], timeout=1200 if ck.thorough() else 400)
+    threads = [threading.Thread(target=run_part, args=(part, idxs)) for part, idxs in groups.items()]
+    for th in threads: th.start()
+    for th in threads: th.join()
+    tm.join()
+    rc2, out2 = rc2_holder["r"]
+    model = out2.splitlines()
     counters["evaluations"] += len(cases)
-    if rc1 == 124:
-        # the implementation does not come back: find the case (the first one without a complete output line)
-        found = True
-        impl = [l for l in impl if l.startswith("out=")]
-        bad = None
-        for idx in range(max(0, min(len(impl), len(cases)) - 1), min(len(cases), len(impl) + 2)):
-            one = os.path.join(ck.scratch, "one.txt"); open(one, "w").write(cases[idx] + "\n")
-            r, o = verif.sh([exe, one], timeout=20)
-            if r != 0: bad = (cases[idx], o); break
-        ck.violation("multiway merge entry point does not terminate (or crashes) on sorted inputs with size <= total",
-                     {"case": bad[0] if bad else None, "log_tail": (bad[1] if bad else out1)[-1500:]})
-        return impl
-    if rc1 != 0:
-        found = True
-        bad = None
-        nok = len([l for l in impl if l.startswith("out=")])
-        for idx in range(max(0, min(nok, len(cases)) - 1), len(cases)):
-            one = os.path.join(ck.scratch, "one.txt"); open(one, "w").write(cases[idx] + "\n")
-            r, o = verif.sh([exe, one], timeout=60)
-            if r != 0: bad = (cases[idx], o); break
-        impl = [l for l in impl if l.startswith("out=")]
-        ck.violation("multiway merge entry point crashes (sanitizer / assertion) or does not terminate on sorted inputs with size <= total",
-                     {"case": bad[0] if bad else None, "log_tail": (bad[1] if bad else out1)[-2500:]})
+    crashed = False
+    for part, idxs in sorted(groups.items()):
+        rc1, out1 = results[part]
+        lines = out1.splitlines()
+        if rc1 != 0:
+            # crash (sanitizer, assertion) or no termination: find the case
+            found = True; crashed = True
+            nok = len([l for l in lines if l.startswith("out=")])
+            bad = None
+            for pos in range(max(0, min(nok, len(idxs)) - 1), len(idxs)):
+                one = os.path.join(ck.scratch, "one.txt"); open(one, "w").write(cases[idxs[pos]] + "\n")
+                r, o = verif.sh([exes[part], one], timeout=60)
+                if r != 0: bad = (cases[idxs[pos]], o); break
+            ck.violation("multiway merge entry point crashes (sanitizer / assertion) or does not terminate on sorted inputs with size <= total",
+                         {"case": bad[0] if bad else None, "log_tail": (bad[1] if bad else out1)[-2500:]})
+            continue
+        for pos, i2 in enumerate(idxs):
+            if pos < len(lines): impl[i2] = lines[pos]
+    if crashed:
         return impl
     for idx, c in enumerate(cases):
         a = impl[idx].strip() if idx < len(impl) else "<missing>"
         b = model[idx].strip() if idx < len(model) else "<missing>"
         t = c.split()
         k = int(t[5])
-        for key, val in (("k", t[5]), ("alg", ALGS[int(t[3])]), ("entry", ("stable_" if t[1] == "1" else "") + "multiway_merge" + ("_sentinels" if t[2] == "1" else "")), ("etype", t[0])):
+        for key, val in (("k", t[5]), ("alg", ALGS[int(t[3])]), ("entry", ("stable_" if t[1] == "1" else "") + "multiway_merge" + ("_sentinels" if t[2] == "1" else "")), ("etype", t[0]),
+                         ("api_profile", "P" + (t[-1][2:].split(".")[0] if t[-1].startswith("v=") else "0"))):
             hist[key][val] = hist[key].get(val, 0) + 1
         if k >= 2 and int(t[4]) > 0 and sum(1 for x in t[6:6 + k] if x != "_") >= 2:
             distinct.add(c)
@@ -275,7 +353,15 @@ def run_cases(cases, tag):
                              {"correspondence": "harness/C05/mwm_harness.cpp vs extracted model (C09 loser trees)", "case": c, "impl": a, "model": b}))
     return impl
 
-exe, log = ck.build_cpp("c05_harness", ["harness/C05/mwm_harness.cpp"])
+import concurrent.futures
+def _build(part):
+    if part == 0: return ck.build_cpp("c05_harness", ["harness/C05/mwm_harness.cpp"])
+    return ck.build_cpp("c05_api%d" % part, ["harness/C05/api_harness.cpp"], extra=["-DAPI_PART=%d" % part])
+with concurrent.futures.ThreadPoolExecutor(max_workers=4) as pool:
+    built = list(pool.map(_build, [0, 1, 2, 3]))
+exes = {part: b[0] for part, b in enumerate(built)}
+exe = None if any(b[0] is None for b in built) else exes[0]
+log = "\n".join(b[1][-1500:] for b in built if b[0] is None)
 drv, dlog = ck.ocaml_driver("C05")
 if drv is None:
     # The generic rule compiles every proof file of C05 first; when a proof (e.g. the table sweep) breaks, build the
@@ -298,7 +384,7 @@ if drv is None:
     drv, dlog2 = fallback_driver()
     dlog = dlog + "\n--- fallback ---\n" + dlog2
 if exe is None:
-    ck.violation("correspondence harness does not compile against /repo", {"correspondence": "harness/C05/mwm_harness.cpp", "log": log[-2000:]}, no_input=True)
+    ck.violation("correspondence harness does not compile against /repo", {"correspondence": "harness/C05/mwm_harness.cpp, harness/C05/api_harness.cpp", "log": log[-3000:]}, no_input=True)
 elif drv is None:
     ck.violation("extracted model/driver does not build", {"correspondence": "ocaml/C05_driver.ml", "log": dlog[-2000:]}, no_input=True)
 else:
@@ -333,6 +419,7 @@ ck.finish({
     "rule": "cases = (element type, entry point, algorithm, length, sequences[, sentinels]); small inputs (k in 0..9 and 17, six shapes: tiny alphabet, all equal, one dominant sequence, wide keys, many empty sequences, staircase) are run for EVERY length 0..total, medium inputs for three lengths under all 16 algorithm/entry-point combinations; k = 3, 4 tie patterns (sorted words of length <= 2 over 3 keys) for every length through the stable entry points. Each case runs on /repo's entry point (checking iterators, ASan+UBSan) and on the extracted Coq model; lines are compared (fully for stable entry points, keys + returned position otherwise; the model runs C09's loser-tree model, and the number of unstable results differing from it in the tie choice only is recorded) and the property is decided directly on the implementation's line. non-trivial = k >= 2, at least two non-empty sequences and length > 0; distinct = distinct case text.",
     "samples": samples,
     "input_distribution": hist,
+    "api_surface": API_SURFACE,
 }, assumptions=[
     "loser trees enter the general theorems through an interface (winner = live source with minimal head, stable: smallest index among equivalent); the interface is instantiated with C09's model of loser_tree.hpp (guarded classes: every input; unguarded classes: under C09's key precondition) and with a reference tournament; the correspondence run executes the C09-backed model (copy classes for I/T, pointer classes for B) and cross-checks it with the reference tournament",
     "std::lower_bound / std::upper_bound / std::copy modelled by their specification",
